@@ -73,7 +73,7 @@ theorem embed2_provWF (o i R : USig) (uva uvk : Bool)
         intro p hp
         rw [isrc]
         rw [iall] at hp
-        exact pi.ne _ (mem_names_of_mem hp)
+        exact pi.ne _ (mem_names_of_mem_C08 hp)
       obtain ⟨k1, k2, k3, k4⟩ := embedStep_src (sortParams o) (sortParams i) acc uva uvk 1
         (by intro k; rw [osrc, oall]; exact po.keys k)
         (by intro k hk; rw [osrc]; rw [oall] at hk; exact po.ne k hk)
